@@ -19,7 +19,17 @@ import (
 // Rand is SplitMix64: one state, seeded from VERIF_SEED, drives every random choice.
 type Rand struct{ s uint64 }
 
-func NewRand(seed uint64) *Rand { return &Rand{s: seed*0x9E3779B97F4A7C15 + 0x1234567} }
+// NewRand scrambles the seed through the SplitMix64 output function before using it as the state:
+// with the state a linear function of the seed, neighbouring seeds produced the same stream shifted
+// by a few draws and data-dependent generators fell back into step (notes/C03-requests.md,
+// notes/C07-requests.md).
+func NewRand(seed uint64) *Rand {
+	z := seed + 0x9E3779B97F4A7C15
+	z = (z ^ (z >> 30)) * 0xBF58476D1CE4E5B9
+	z = (z ^ (z >> 27)) * 0x94D049BB133111EB
+	z ^= z >> 31
+	return &Rand{s: z ^ 0x1234567}
+}
 func (r *Rand) Uint64() uint64 {
 	r.s += 0x9E3779B97F4A7C15
 	z := r.s
